@@ -61,7 +61,7 @@ class Walker:
             if not T.is_const(v):
                 return None
             if v[1] not in self.from_u8_memo:
-                self.from_u8_memo[v[1]] = T.eval_table(self.e2, self.from_u8_leaves, {("param", 0, "pos"): v})
+                self.from_u8_memo[v[1]] = T.eval_table(self.e2, self.from_u8_leaves, {("param", 0, "a0"): v})
             return self.from_u8_memo[v[1]]
         return None
 
